@@ -45,6 +45,25 @@ STRENGTHENED = {
     "C18-superseded-handler-untracked": "missed at first; C18 gained the scenario slow-twice (token re-used while the first handler runs) and counts running handlers",
     "C18-empty-ack-timer-outlives-transport": "missed at first; the shutdown fault gained loop stalls after the 1st..6th iteration of the shutdown (late timers)",
     "C15-pong-skips-critical-check": "missed at first; the alphabet gained critical/elective options in Pong, Release and Abort",
+    # round 5 (several checks were extended from the authors' reports before the matrix was run; "missed at first" is what the
+    # checks of commit 7582383 did, see DESIGN 12.5)
+    "C01-recv-buffer": "missed at first; the fake socket now cuts a datagram that does not fit the buffer it is handed (as the kernel does) and C01 sends whole datagrams of up to 4096 bytes through the real recvmsg transport",
+    "C02-ended-pipe-skips-interest-end": "missed at first; C02 gained S-REQ-earlywithdraw (request withdrawn in the step it was issued, remote resolution taking a turn of the loop)",
+    "C04-recent-table-shared": "missed at first; C04 gained a second server endpoint of the same process",
+    "C05-block2-client-max-cap-no-rescale": "missed at first; C05 gained large responses to a client limited to smaller blocks than the server's first Block2 response",
+    "C05-block2-empty-nonfinal-block": "missed at first; C05 gained the b2-empty misbehaviour (more-flag set, no payload)",
+    "C06-cachekey-repeated-option-collapse": "missed at first; C06 gained two operations that differ in a non-last value of a repeated option (Uri-Query)",
+    "C08-final-notification-withdrawn": "missed at first; C08 gained the clause that the notification ending a registration is itself sent",
+    "C09-eager-exception-repr": "missed at first; the outcome alphabet gained exceptions that cannot be printed",
+    "C10-end-stop-drops-backlogged": "missed at first; C10 gained run_behind_release (a second slow request behind the node's own unacknowledged separate response)",
+    "C11-fetch-outer-code-leak": "missed at first; C11 gained the rule that the outer code depends on Observe alone",
+    "C11-echo-retry-stale-request-id": "not reported: the change is in transports/oscore.py (the OSCORE transport glue), which C11 does not drive - it calls protect()/unprotect() of the anchored aiocoap/oscore.py directly",
+    "C12-group-peers-share-window": "not reported: group OSCORE is outside C12's scope (the stand-in crypto has no signature / key-agreement primitives)",
+    "C13-echo-token-per-process": "missed at first; C13 gained fixed histories with two process deaths around an Echo exchange",
+    "C14-unmatched-piggyback-keeps-exchange": "missed at first; C14 gained the withdrawal of the request whose exchange is open",
+    "C16-remote-netloc-lowercased-zone": "missed at first; the zone alphabet gained a zone with upper-case letters",
+    "C17-wkc-filter-last-equals": "missed at first; filter values and paths containing '=' joined the alphabets",
+    "C19-localpath-cache-shared-across-servers": "missed at first; C19 gained two file servers with roots of their own in one process",
     # round 4
     "C02-shutdown-window-accepts-requests": "missed at first; C02 and C18 gained a request submitted by another task after the 1st..4th loop iteration of the shutdown",
     "C03-cancelled-backlog-giveup-hangs": "missed at first; C03 gained pre=follower-withdrawn (a second request held back behind the CON under test and withdrawn)",
